@@ -482,6 +482,11 @@ func (w *WAL) DeleteRange(min uint64, max uint64) error {
 
 	// Work out what type of truncation this is.
 	first, last := s.firstIndex(), s.lastIndex()
+	if max > last {
+		// Nothing exists above last. Clamping also keeps max+1 below from
+		// overflowing when callers pass math.MaxUint64 as "everything".
+		max = last
+	}
 	switch {
 	// |min----max|
 	//               |first====last|
